@@ -158,6 +158,24 @@ func apply(vm data.VM, o op, label string, zvals map[*data.ZVal]int) string {
 			return "none"
 		}
 		return labelOf(c)
+	case "GetOrLoadClass":
+		c, acl := vm.GetOrLoadClass(o.Name)
+		if acl != nil {
+			return "err"
+		}
+		if c == nil {
+			return "none"
+		}
+		return labelOf(c)
+	case "GetOrLoadInterface":
+		c, acl := vm.GetOrLoadInterface(o.Name)
+		if acl != nil {
+			return "err"
+		}
+		if c == nil {
+			return "none"
+		}
+		return labelOf(c)
 	case "SetConstant":
 		if acl := vm.SetConstant(o.Name, data.NewStringValue(label)); acl != nil {
 			return "err"
@@ -548,15 +566,40 @@ func (m *mstate) apply(o op, label string) string {
 		if l, ok := m.funcs[o.Name]; ok {
 			return "func:" + l
 		}
+		// a fully-qualified spelling (\name) falls back to the bare name
+		if strings.HasPrefix(o.Name, "\\") {
+			if l, ok := m.funcs[o.Name[1:]]; ok {
+				return "func:" + l
+			}
+		}
 		return "none"
 	case "LoadPkg":
-		if l, ok := m.classes[o.Name]; ok {
-			return "class:" + l
-		}
-		if l, ok := m.ifaces[o.Name]; ok {
-			return "iface:" + l
+		for _, n := range []string{strings.TrimPrefix(o.Name, "\\"), o.Name} {
+			if l, ok := m.classes[n]; ok {
+				return "class:" + l
+			}
+			if l, ok := m.ifaces[n]; ok {
+				return "iface:" + l
+			}
 		}
 		return "err" // unknown name: the class-path manager reports "cannot be loaded"
+	case "GetOrLoadClass":
+		n := strings.TrimPrefix(o.Name, "\\")
+		if l, ok := m.classes[n]; ok {
+			return "class:" + l
+		}
+		for k, l := range m.classes {
+			if strings.EqualFold(k, n) {
+				return "class:" + l
+			}
+		}
+		return "err" // nothing on the class path in this harness: unknown names fail to load
+	case "GetOrLoadInterface":
+		n := strings.TrimPrefix(o.Name, "\\")
+		if l, ok := m.ifaces[n]; ok {
+			return "iface:" + l
+		}
+		return "err"
 	case "SetConstant":
 		if _, ok := m.consts[o.Name]; ok {
 			return "err"
@@ -593,14 +636,20 @@ func (m *mstate) apply(o op, label string) string {
 	panic("model: " + o.Kind)
 }
 
-var allKinds = []string{"AddClass", "AddInterface", "AddFunc", "GetClass", "GetInterface", "GetFunc", "LoadPkg", "SetConstant", "GetConstant", "EnsureGlobal", "RegisterGlobals", "SetFile", "GetFile"}
+var allKinds = []string{"AddClass", "AddInterface", "AddFunc", "GetClass", "GetInterface", "GetFunc", "LoadPkg", "GetOrLoadClass", "GetOrLoadInterface", "SetConstant", "GetConstant", "EnsureGlobal", "RegisterGlobals", "SetFile", "GetFile"}
 var names = []string{"X", "x", "Y"}
+
+// lookups that accept a fully-qualified spelling also get "\\X" (never registered under that spelling)
+var fqKinds = map[string]bool{"GetFunc": true, "LoadPkg": true, "GetOrLoadClass": true, "GetOrLoadInterface": true}
 
 func allOps() []op {
 	var out []op
 	for _, k := range allKinds {
 		for _, n := range names {
 			out = append(out, op{k, n})
+		}
+		if fqKinds[k] {
+			out = append(out, op{k, "\\X"})
 		}
 	}
 	return out
@@ -677,8 +726,8 @@ func scenarios(quick bool) []scenario {
 		pb = 3
 	}
 	fam := [][]op{
-		{{"AddClass", "X"}, {"AddClass", "x"}, {"AddInterface", "X"}, {"GetClass", "X"}, {"GetClass", "x"}, {"LoadPkg", "X"}, {"GetInterface", "X"}},
-		{{"AddFunc", "X"}, {"AddFunc", "Y"}, {"GetFunc", "X"}},
+		{{"AddClass", "X"}, {"AddClass", "x"}, {"AddInterface", "X"}, {"GetClass", "X"}, {"GetClass", "x"}, {"LoadPkg", "X"}, {"GetInterface", "X"}, {"GetOrLoadClass", "\\X"}},
+		{{"AddFunc", "X"}, {"AddFunc", "Y"}, {"GetFunc", "X"}, {"GetFunc", "\\X"}},
 		{{"SetConstant", "X"}, {"SetConstant", "Y"}, {"GetConstant", "X"}},
 		{{"EnsureGlobal", "X"}, {"EnsureGlobal", "Y"}, {"RegisterGlobals", "X"}},
 		{{"SetFile", "X"}, {"GetFile", "X"}, {"SetFile", "Y"}},
